@@ -67,6 +67,32 @@ def fmt12 (bits : UInt64) : List Char :=
   | .inf neg => (if neg then ['-'] else []) ++ "inf".toList
   | .nan => "nan".toList
 
+/-- round-half-even(|v|·10^p): the general form behind `'{:.{places}f}'` -/
+def roundP (p : Nat) (d : Dec) : Nat :=
+  let N := d.M * 10^p
+  if d.E ≥ 0 then N * 2^d.E.toNat
+  else
+    let den := 2^((-d.E).toNat)
+    let q := N / den
+    let r := N % den
+    if 2 * r > den || (2 * r == den && q % 2 == 1) then q + 1 else q
+
+/-- `'{:.{p}f}'.format(x)` for any number of places (no decimal point when p = 0, as in CPython) -/
+def fmtFixed (p : Nat) (bits : UInt64) : List Char :=
+  match classify bits with
+  | .finite d =>
+    let n := roundP p d
+    (if d.neg then ['-'] else []) ++ natDigits (n / 10^p) ++ (if p == 0 then [] else ['.']) ++ fixedDigits p (n % 10^p)
+  | .inf neg => (if neg then ['-'] else []) ++ "inf".toList
+  | .nan => "nan".toList
+
+theorem fmtFixed_twelve (bits : UInt64) : fmtFixed 12 bits = fmt12 bits := by
+  unfold fmtFixed fmt12
+  cases classify bits <;> rfl
+
+/-- `'%d' % n` for a natural number -/
+def pctD (n : Nat) : List Char := natDigits n
+
 /-- split off a leading minus sign -/
 def stripSign : List Char → Bool × List Char
   | '-' :: t => (true, t)
@@ -89,6 +115,13 @@ def fileLines (xs ys : List UInt64) : List (List Char) :=
     List.zipWith (fun a b => fmt12 a ++ [' '] ++ fmt12 b) xs ys
 
 def fileText (xs ys : List UInt64) : List Char := (fileLines xs ys).flatMap (· ++ ['\n'])
+
+/-- the lines of a text (what `readline`/`loadtxt` see): split at every newline; a last unterminated piece is a line too -/
+def splitNLAux : List Char → List Char → List (List Char)
+  | [], cur => if cur.isEmpty then [] else [cur.reverse]
+  | c :: t, cur => if c == '\n' then cur.reverse :: splitNLAux t [] else splitNLAux t (c :: cur)
+
+def splitNL (cs : List Char) : List (List Char) := splitNLAux cs []
 
 /-- what the reader does (`np.loadtxt(skiprows=2, comments="#")`) up to the final text→double step:
     skip 2 lines, drop comment lines, split each remaining line at the blank, parse both numbers exactly -/
